@@ -115,6 +115,7 @@ class XyeEngine(Engine):
         coords = {}
         for nm in names:
             coords[nm] = {"unit": rng.choice(UNITS),
+                          "dtype": rng.choice(["float64", "float64", "float64", "float32", "int64", "int32"]),
                           "edges": False,
                           "vals": {"seed": rng.randrange(1 << 32)} if compact else self._gvals(rng, n, "val")}
         if n_coords > 1 and rng.random() < 0.2:
@@ -172,6 +173,19 @@ class XyeEngine(Engine):
             return a
         return np.asarray(spec, dtype=np.float64)
 
+    def _coord_arr(self, c, n):
+        """Coordinate values in the coordinate's own dtype (what save_xye receives)."""
+        v = self._arr(c["vals"], n, "val")
+        dt = c.get("dtype", "float64")
+        if dt == "float64":
+            return v
+        with np.errstate(all="ignore"):
+            if dt == "float32":
+                v = np.clip(v, -3e38, 3e38).astype("float32")
+            else:
+                v = np.clip(np.nan_to_num(v), -2e9, 2e9).astype(dt)
+        return v
+
     def _make(self, scn):
         import scipp as sc
 
@@ -180,7 +194,7 @@ class XyeEngine(Engine):
                         variances=self._arr(scn["variances"], n, "var"), unit=scn["unit"])
         coords = {}
         for nm, c in scn["coords"].items():
-            v = self._arr(c["vals"], n, "val")
+            v = self._coord_arr(c, n)
             if c["edges"]:
                 v = np.concatenate([v, [v[-1] + 1.0]])
             coords[nm] = sc.array(dims=[dim], values=v, unit=c["unit"])
@@ -260,7 +274,7 @@ class XyeEngine(Engine):
     def _compare(self, scn, ctx, loaded, where):
         sel = self._selected(scn)
         n = scn["n"]
-        want_c = self._arr(scn["coords"][sel]["vals"], n, "val")
+        want_c = self._coord_arr(scn["coords"][sel], n).astype(np.float64)
         want_v = self._arr(scn["values"], n, "val")
         want_e = self._arr(scn["variances"], n, "var")
         cname = scn["load_coord"] or scn["dim"]
